@@ -38,6 +38,16 @@ def to_tree(c):
     return Token(c[1], c[2])
 
 
+def deep_like(s: str) -> bool:
+    return s.count("(") > 100
+
+
+def deep_string(rng, depth: int) -> str:
+    """a legal expression nested `depth` brackets deep: [k]U([k]O([k]U( … )))"""
+    ops = [rng.choice("UOX") for _ in range(depth)]
+    return "".join(f"[{rng.randint(1, 499)}]{o}(" for o in ops) + "[1]" + ")" * depth
+
+
 class History:
     """runs one history on the implementation, generating edits against the live objects"""
 
@@ -48,9 +58,7 @@ class History:
         mod = cp if parser == "cond" else ap
         self.fn = cp.parse_condition_expression_to_tree if parser == "cond" else ap.parse_ahb_expression_to_single_requirement_indicator_expressions
         self.raw = mod._parser  # pylint:disable=protected-access
-        for c in (self.fn.__closure__ or []):
-            if hasattr(c.cell_contents, "cache_clear"):
-                c.cell_contents.cache_clear()
+        self.clear()
         self.parser = parser
         self.strings = strings
         self.pure = {}
@@ -59,9 +67,25 @@ class History:
                 self.pure[s] = canon(self.raw.parse(s))
             except Exception:  # pylint:disable=broad-except
                 self.pure[s] = None
+            if self.pure[s] is not None and deep_like(s):
+                # a string may be parsable and still make the memoised function raise (RecursionError while copying a very deep tree):
+                # then "the" answer for the string is what the function says with an empty cache
+                self.clear()
+                try:
+                    self.fn(s)
+                except SyntaxError:
+                    pass
+                except BaseException as e:  # pylint:disable=broad-except
+                    self.pure[s] = ["raises", type(e).__name__]
+                self.clear()
         self.held = []
         self.ops = []
         self.failure = None
+
+    def clear(self):
+        for c in (self.fn.__closure__ or []):
+            if hasattr(c.cell_contents, "cache_clear"):
+                c.cell_contents.cache_clear()
 
     def subtrees(self, t, path=(), budget=None):
         budget = budget if budget is not None else [300]
@@ -203,7 +227,7 @@ def replay_ops(h: "History", ops):
 
 def run(ctx: Ctx) -> None:
     ctx.rule = ("histories of 150-400 (thorough: up to 3000) operations per parser: parse calls over 20-60 (thorough: 1500 > cache capacity 1024) distinct strings, "
-                "repeated and fresh, interleaved with in-place edits (replace/remove/append/rebind/rename at random depth, inserting tokens, fresh trees, nodes of "
+                "repeated and fresh (one history with expressions nested 150-330 brackets deep), interleaved with in-place edits (replace/remove/append/rebind/rename at random depth, inserting tokens, fresh trees, nodes of "
                 "older returned trees); every returned tree compared with an uncached parse; distinct = (parser, history index, operation index)")
     changed = extract.regenerate(["CopyMode"])
     ctx.coverage["generated_changed"] = changed
@@ -217,11 +241,15 @@ def run(ctx: Ctx) -> None:
             ctx.lean_check_olean(MODULES)
     rng = ctx.rng
     histories = []
-    plans = [("cond", ctx.pick(40, 60), ctx.pick(250, 400)), ("ahb", ctx.pick(25, 40), ctx.pick(200, 300)), ("cond", 8, 150), ("ahb", 5, 120)]
+    plans = [("cond", ctx.pick(40, 60), ctx.pick(250, 400)), ("ahb", ctx.pick(25, 40), ctx.pick(200, 300)), ("cond", 8, 150), ("ahb", 5, 120), ("cond-deep", 6, 60)]
     if not ctx.quick:
         plans += [("cond", 1500, 3500), ("ahb", 1200, 2600)] + [("cond", 30, 300)] * 6 + [("ahb", 20, 250)] * 6
     for parser, n_strings, n_ops in plans:
         strings = []
+        deep = parser == "cond-deep"
+        if deep:  # very deep but legal nesting: copying such a tree is where a copy routine may give up or take a short cut
+            parser = "cond"
+            strings = [deep_string(rng, d) for d in (150, 270, 330)]
         while len(strings) < n_strings:
             e = T.rand_expr(rng, rng.randint(1, 5))
             s = T.render(e, T.Style(rng, "min", "upper", "one")).strip()
@@ -232,6 +260,7 @@ def run(ctx: Ctx) -> None:
             if s not in strings:
                 strings.append(s)
         h = History(ctx, parser, strings)
+        h.deep = deep
         seen = []
         for k in range(n_ops):
             if rng.random() < 0.45 and h.held:
@@ -256,6 +285,7 @@ def run(ctx: Ctx) -> None:
     if drv and mode in ("deep", "shareChildren"):
         # the model replays each history under the observed copy discipline; its answers must equal the implementation's
         reqs = []
+        histories = [h for h in histories if not getattr(h, "deep", False)]  # answers that are exceptions are not in the model's vocabulary
         for h in histories:
             reqs.append({"op": "cacheOps", "mode": mode, "cap": 1024, "pure": {s: v for s, v in h.pure.items() if v is not None}, "ops": h.ops})
         outs = ctx.driver(reqs)
